@@ -1,4 +1,4 @@
-import EgVerif.Model.Framing
+import EgVerif.Model.ProxyCache
 /-!
 # End-to-end composition used by the C03 / C07 judges
 
@@ -73,8 +73,13 @@ def transportReply {β} (ops : BodyOps β) (method : String) (outHdr : Hdr) (b :
     ⟨b.status, (b.hdr.del keyCE).del keyCL, -1, .stream ((ops.ungz b.body).getD b.body)⟩
   else ⟨b.status, b.hdr, b.cl, .stream b.body⟩
 
-def run {β} (ops : BodyOps β) (canon : String → String) (cfg : Cfg) (q : ClientReq β)
-    (reply : BackendReply β) : Result β :=
+/-- Outcome of everything before the pool: mux limit check, RequestAdaptor, prepareRequest. -/
+inductive Prepared (β : Type)
+  | early (status : Nat)
+  | adaptorFailed
+  | ready (m : ReqMsg β) (seen : BackendSeen β)
+
+def prepare {β} (ops : BodyOps β) (canon : String → String) (cfg : Cfg) (q : ClientReq β) : Prepared β :=
   let served := Payload.serve cfg.dflt cfg.pathMax cfg.serverMax ⟨q.declared, ops.len q.body⟩
   if !served.handled then .early served.status else
   let pl : Pl β := match served.payload with
@@ -86,18 +91,51 @@ def run {β} (ops : BodyOps β) (canon : String → String) (cfg : Cfg) (q : Cli
   | none => .adaptorFailed
   | some m =>
     let outHdr := cloneHeader canon hopHeaders m.hdr
-    let seen : BackendSeen β :=
-      ⟨q.method, targetURL cfg.server.url q.escapedPath q.rawQuery, hostSent cfg.server q.host,
+    .ready m ⟨q.method, targetURL cfg.server.url q.escapedPath q.rawQuery, hostSent cfg.server q.host,
        outHdr, m.payload.content, m.payload.isStream⟩
-    let isHead := q.method == "HEAD"
-    let r0 := transportReply ops q.method outHdr reply
-    let r1 := match cfg.compression with
-      | none => r0
-      | some ml => proxyCompress ops ml outHdr r0
-    match fetchPayload ops cfg.dflt (Payload.effLimit cfg.poolMax cfg.proxyMax) isHead r1 with
+
+/-- transport + `buildResponse` for one backend reply; `none` = error (⇒ 500). -/
+def proxyResp {β} (ops : BodyOps β) (cfg : Cfg) (method : String) (outHdr : Hdr) (reply : BackendReply β) :
+    Option (Resp β) :=
+  let r0 := transportReply ops method outHdr reply
+  let r1 := match cfg.compression with
+    | none => r0
+    | some ml => proxyCompress ops ml outHdr r0
+  fetchPayload ops cfg.dflt (Payload.effLimit cfg.poolMax cfg.proxyMax) (method == "HEAD") r1
+
+def downstream (cfg : Cfg) : List AdSpec := match cfg.respAd with | none => [] | some a => [a]
+
+def run {β} (ops : BodyOps β) (canon : String → String) (cfg : Cfg) (q : ClientReq β)
+    (reply : BackendReply β) : Result β :=
+  match prepare ops canon cfg q with
+  | .early st => .early st
+  | .adaptorFailed => .adaptorFailed
+  | .ready _ seen =>
+    match proxyResp ops cfg q.method seen.hdr reply with
     | none => .proxied seen (failureResp ops 500) false
-    | some r2 =>
-      let r3 := match cfg.respAd with | none => r2 | some a => adaptorHandle ops a r2
-      .proxied seen r3 true
+    | some r2 => .proxied seen (adaptorChain ops (downstream cfg) r2) true
+
+/-! ### Histories through a pool with `memoryCache` -/
+
+inductive StepResult (β : Type)
+  | early (status : Nat)
+  | adaptorFailed
+  /-- served from the cache: the backend is not contacted -/
+  | hit (client : Resp β)
+  | miss (seen : BackendSeen β) (client : Resp β) (proxyOK : Bool)
+
+/-- One request of a history: `prepare`, then `poolStep` (cache load / backend / store /
+downstream filters). `decodedPath` is `URL.Path` (the cache key uses it). -/
+def runStep {β} (ops : BodyOps β) (canon : String → String) (cfg : Cfg) (ccfg : CacheCfg)
+    (c : Cache β) (q : ClientReq β) (decodedPath : String) (reply : BackendReply β) : Cache β × StepResult β :=
+  match prepare ops canon cfg q with
+  | .early st => (c, .early st)
+  | .adaptorFailed => (c, .adaptorFailed)
+  | .ready m seen =>
+    let key := cacheKey "http" q.host decodedPath q.method
+    let pq : PoolReq β := ⟨key, q.method, m.hdr, proxyResp ops cfg q.method seen.hdr reply, failureResp ops 500⟩
+    let wasHit := (cacheLoad ccfg key q.method m.hdr c).isSome
+    let s := poolStep ops ccfg false (downstream cfg) c pq
+    (s.1, if wasHit then .hit s.2 else .miss seen s.2 pq.fresh.isSome)
 
 end EgVerif.Proxy
